@@ -23,6 +23,10 @@
    its elevations (also when no expansion has happened yet).  Core.updateAxialMesh: core.p.axialMesh = <<0>> \o tops
    of the reference assembly.  With a detailed changer Manage only does the latter.
 
+   SaveLoad = Database.writeToDB(r) ; Database.load: a database round trip between two calls changes nothing the next call
+   depends on (heights, elevations, densities, temperatures, the designated target names b.p.axialExpTargetComponent);
+   only the components' zbottom/ztop/height attributes are gone and every assembly grid carries its elevations.
+
    INTERPRETATION.  The statement's conservation clause is about expanding components; the snap is ARMI's uniform-mesh
    approximation and documents what it conserves.  Checked here, for EVERY assembly of the core:
        FollowersKeepTotalHeight, FollowersOnReferenceMesh (contiguous, positive, tops = the reference tops they track)
@@ -34,7 +38,8 @@
 *)
 EXTENDS AxialExpansion
 
-CONSTANTS Cores      \* set of [ref |-> design (see AxialExpansion), fols |-> <<[types, hs, hd, fuel |-> assembly flagged FUEL]>>]
+CONSTANTS UseDb,     \* TRUE: database round trips (SaveLoad) are explored too
+          Cores      \* set of [ref |-> design (see AxialExpansion), ex |-> explicit target index per block (0 = none), fols |-> <<[types, hs, hd, fuel |-> assembly flagged FUEL]>>]
 
 VARIABLES F,         \* static follower data
           fol,       \* fol[f] = [h |-> block heights, lin |-> lin per component]
@@ -60,8 +65,8 @@ FK(f) == F[f].k + 1
 FolInit(d) == [h   |-> [b \in 1..(Len(d.types) + 1) |-> RInt((d.hs \o <<d.hd>>)[b])],
                lin |-> [b \in 1..(Len(d.types) + 1) |-> [i \in 1..(IF b <= Len(d.types) THEN Len(BT[d.types[b]].comps) ELSE 0) |-> ROne]]]
 
-CInit == \E c \in Cores : \E ex \in ExplChoices(c.ref) :
-            /\ InitFor(c.ref, ex)
+CInit == \E c \in Cores :
+            /\ InitFor(c.ref, c.ex)
             /\ F = [f \in 1..Len(c.fols) |-> FolStatic(c.fols[f], c.ref)]
             /\ fol = [f \in 1..Len(c.fols) |-> FolInit(c.fols[f])]
             /\ prefol = <<>>
@@ -85,11 +90,25 @@ Manage ==
     /\ coreMesh' = <<RZero>> \o zt
     /\ mesh' = IF A.det THEN mesh ELSE <<RZero>> \o zt            \* calculateZCoords of the reference assembly
     /\ err' = "" /\ broken' = FALSE
-    /\ UNCHANGED <<zb, zt, h, comp, tname, placed, F>>
+    /\ UNCHANGED <<A, zb, zt, h, comp, tname, placed, F>>
     /\ Hist([n |-> "Manage"], <<>>)
+
+\* Database.writeToDB(r) ; Database.load(cycle, node): every assembly comes back with the same heights, elevations, densities,
+\* temperatures and designated target names (b.p.axialExpTargetComponent is a saved parameter); the components' zbottom /
+\* ztop / height are plain attributes and are gone (the next call sets them again); grids are rebuilt from the heights
+SaveLoad ==
+    /\ CanCall
+    /\ comp' = [b \in 1..NBk |-> [i \in 1..NC(b) |-> [comp[b][i] EXCEPT !.h = RZero, !.zb = RZero, !.zt = RZero]]]
+    /\ placed' = FALSE
+    /\ mesh' = <<RZero>> \o zt
+    /\ prefol' = fol
+    /\ err' = "" /\ broken' = FALSE
+    /\ UNCHANGED <<A, zb, zt, h, tname, F, fol, coreMesh>>
+    /\ Hist([n |-> "SaveLoad"], <<>>)
 
 CNext == \/ Next /\ prefol' = fol /\ UNCHANGED <<F, fol, coreMesh>>
          \/ Manage
+         \/ UseDb /\ SaveLoad
 
 (* ------------------------------------------- properties -------------------------------------------------- *)
 Managed == act.n = "Manage" /\ ~A.det
@@ -113,6 +132,9 @@ ReferenceUntouchedBySnap == act.n = "Manage" =>
 CoreMeshIsReference == (coreMesh # <<>> /\ act.n = "Manage") => coreMesh = <<RZero>> \o zt
 \* calls on the reference assembly never touch the followers
 CallsLeaveFollowers == act.n \notin {"Init", "Manage"} => fol = prefol
+SaveLoadKeepsState == act.n = "SaveLoad" =>
+    /\ zb = pre.zb /\ zt = pre.zt /\ h = pre.h
+    /\ \A b \in 1..NBk : \A i \in 1..NC(b) : comp[b][i].lin = pre.lin[b][i] /\ comp[b][i].T = pre.T[b][i]
 
 (* ------------------------------------------- observation ------------------------------------------------- *)
 FolObs == [f \in 1..NF |->
